@@ -9,7 +9,8 @@ VARIABLE c
 
 St(h, l, k) == [h |-> h, l |-> l, k |-> k]
 Starts == {St(0, 0, 1), St(0, 1, 1), St(0, 65520, 1), St(0, 65535, 1), St(1, 0, 1), St(1, 16, 1),
-           St(255, 65520, 2), St(256, 0, 2),
+           St(2, 0, 1), St(3, 1, 1),                  \* behind a 64 KiB page that nothing is assembled in
+           St(255, 65520, 2), St(256, 0, 2), St(258, 0, 2),
            St(32767, 65520, 3), St(32768, 0, 3),
            St(65534, 65520, 4), St(65535, 65280, 4)}
 Lens == {1, 2, 15, 16, 17, 32, 255, 256, 257}
